@@ -149,6 +149,12 @@ def addTo : Field → List OC
   | .ns k => [OC.ns k]
   | .skip => []
 
+/-- `zap.Errors(key, errs)` (error.go): an array with one object per non-nil error; each element is encoded by
+    `Error(err).AddTo(enc)`, so — unlike the causes of an error group — a failing element reports itself inside its
+    own object (`errorError`) and the array goes on -/
+def errorsField (k : Bytes) (es : List ErrV) : Field :=
+  .arr k (es.map fun e => AC.obj (addTo (.error (litStr "error") e))) none
+
 def addFields (fs : List Field) : List OC := fs.flatMap addTo
 
 /-! ### entry metadata -/
